@@ -363,7 +363,7 @@ class SymEx:
             # a reference to a location whose content is itself a symbolic object denotes that object
             if key[0] == 'local':
                 v = self.load(st, key, b)
-                if v[0] in ('param', 'fld', 'payload', 'call', 'unk', 'index') and not self._is_scalar_local(b, key[2]):
+                if v[0] in ('param', 'fld', 'payload', 'call', 'unk', 'index') and not self._is_scalar_local(self.prog.bodies.get(key[1], b), key[2]):
                     return v
             return key
         if k == 'cast':
@@ -430,6 +430,8 @@ class SymEx:
         return ('unk', 'rvalue:' + k)
 
     def _is_scalar_local(self, b, l):
+        if l >= len(b.locals):
+            return False
         t = b.local_ty(l)['s']
         return t in ('bool', 'u8', 'u16', 'u32', 'u64', 'u128', 'usize', 'i8', 'i16', 'i32', 'i64', 'i128', 'isize', 'char') or \
             t.startswith('std::option::Option<') or t.startswith('(')
@@ -863,6 +865,14 @@ class SymEx:
             if d in st.known:
                 return ('c', st.known[d] == want)
             return ('cmp', 'eq', ('c', want), d)
+        if ext in ('std::primitive::bool::then_some', 'core::bool::then_some', 'bool::then_some') or (last == 'then_some' and 'bool' in ext):
+            if len(args) == 2:
+                s_f = st.fork()
+                if self.assume_bool(s_f, args[0], False):
+                    resume(s_f, NONE)
+                if self.assume_bool(st, args[0], True):
+                    resume(st, some(args[1]))
+                return 'handled'
         if ext == 'std::option::Option::is_some' and args:
             return self.is_some(st, self.load(st, args[0], b))
         if ext == 'std::option::Option::is_none' and args:
@@ -957,6 +967,19 @@ class SymEx:
                 return 'handled'
         if (ext.endswith('std::ops::FromResidual>::from_residual') or ext.endswith('FromResidual::from_residual')) and args:
             return self.load(st, args[0], b)
+        if ext in ('std::option::Option::iter', 'std::option::Option::iter_mut', 'std::option::Option::into_iter') and args:
+            return ('opt_iter', self.load(st, args[0], b))
+        if last in ('all', 'any') and len(args) == 2 and (ext.startswith('std::iter::Iterator::') or ' as std::iter::Iterator>::' in ext) and (raw or args)[1][0] in ('closure', 'fn'):
+            # no item: all -> true, any -> false; one abstract item x: the closure's verdict on x
+            clo = (raw or args)[1]
+
+            def kq(s2, opt, _clo=clo, _last=last):
+                if opt == NONE:
+                    resume(s2, ('c', _last == 'all'))
+                else:
+                    self.apply_fn(_clo, [opt[3][0]], s2, depth, out, lambda s3, rv: resume(s3, rv))
+            self.iter_next(b, st, args[0], depth, out, line, kq)
+            return 'handled'
         if ext == 'std::iter::successors' and len(args) == 2 and (raw or args)[1][0] in ('closure', 'fn'):
             # stateful: (successor function, the item the next call of next() yields)
             return ('iter_succ', (raw or args)[1], self.load(st, args[0], b))
@@ -978,7 +1001,7 @@ class SymEx:
         if ext == 'crossbeam_channel::Receiver::try_iter' and args:
             # draining a channel through its non-blocking iterator is a sequence of try_recv() calls
             return ('chan_iter', args[0])
-        if last == 'next' and args and isinstance(args[0], tuple) and args[0] and args[0][0] in ITER_ADAPTORS + ('chan_iter',) and ('Iterator' in ext or 'iter::' in ext):
+        if last == 'next' and args and isinstance(args[0], tuple) and args[0] and args[0][0] in ITER_ADAPTORS + ('chan_iter', 'opt_iter') and ('Iterator' in ext or 'iter::' in ext):
             self.iter_next(b, st, args[0], depth, out, line, resume)
             return 'handled'
         if ext.endswith('Iterator::take') and len(args) == 2 and isinstance(args[0], tuple) and args[0] and args[0][0] == 'chan_iter':
@@ -1060,6 +1083,10 @@ class SymEx:
                     self.apply_fn(clo, [payload], s, depth, out, kfm)
             self.iter_next(b, st, it[1], depth, out, line, k1)
             return
+        if kind == 'opt_iter':
+            for (s2, is_some, pl) in self.option_cases(st, it[1]):
+                k(s2, some(pl) if is_some else NONE)
+            return
         if kind == 'chan_iter':
             rcv = self.call_term(st, 'crossbeam_channel::Receiver::try_recv', (it[1],), [])
             st.events.append(('call', 'crossbeam_channel::Receiver::try_recv', (it[1],), line, b.nid, None, rcv))
@@ -1139,7 +1166,15 @@ class SymEx:
             elif last == 'and_then':
                 k = lambda s2, rv: resume(s2, rv)
             else:
-                k = lambda s2, rv: resume(s2, ('filtered', some(payload), rv))
+                def k(s2, rv, _pl=payload):
+                    d_ = self.simplify(s2, rv)
+                    if d_[0] == 'c':
+                        resume(s2, some(_pl) if d_[1] else NONE); return
+                    s_f = s2.fork()
+                    if self.assume_bool(s_f, rv, False):
+                        resume(s_f, NONE)
+                    if self.assume_bool(s2, rv, True):
+                        resume(s2, some(_pl))
             if clo[0] == 'fn':  # e.g. .map(Instant) tuple-struct constructor or fn item
                 fn = clo[1]
                 if fn in self.prog.bodies and self.should_inline(fn, depth):
